@@ -6,7 +6,8 @@ CHECKS = {
               essential_labels=["side:consensus-thread", "side:accepter-thread", "backlog>=1", "backlog=0",
                                 "index-state>=2", "index-state<=1"],
               exhaustive_all=True,
-              stages=[rapid("TestC18", 5, 20, quick_shards=4, shards=6, shrink_s=60, timeout_quick=1500, timeout_thorough=7200),
+              stages=[rapid("TestC18SnowRestart", 400, 5000, pkg="snowlife", timeout_quick=600),
+                      rapid("TestC18", 5, 20, quick_shards=4, shards=6, shrink_s=60, timeout_quick=1500, timeout_thorough=7200),
                       plain("TestC18Exhaustive", tiers=("thorough",), timeout_thorough=10800),
                       rapid("TestC18Kill", 1, 20, tiers=("thorough",), shards=6, shrink_s=30, timeout_thorough=7200)]),
 }
